@@ -47,6 +47,9 @@ fn get_mut<'a>(v: &'a mut Value, p: &[PathSeg]) -> Option<&'a mut Value> {
 
 fn try_candidate(cand: &Value, pred: &mut dyn FnMut(&Scenario) -> bool) -> Option<Scenario> {
     let sc: Scenario = serde_json::from_value(cand.clone()).ok()?;
+    if !sc.well_formed() {
+        return None;
+    }
     if pred(&sc) {
         Some(sc)
     } else {
@@ -94,6 +97,10 @@ pub fn shrink(sc: &Scenario, pred: &mut dyn FnMut(&Scenario) -> bool, max_tests:
                     }
                 }
                 Value::Number(n) => {
+                    // message ids are names, not magnitudes
+                    if matches!(p.last(), Some(PathSeg::Key(k)) if k == "id") {
+                        continue;
+                    }
                     if let Some(x) = n.as_u64() {
                         for c in [0u64, x / 2, x.saturating_sub(2), x.saturating_sub(1)] {
                             if c >= x || tests >= max_tests {
